@@ -49,15 +49,36 @@ theorem callback_without_entry_is_mismatch_partial (w : World) (hc : w.cacheMode
     obtain ⟨hm, hk⟩ := find_mem _ _ _ hf
     exact absurd (by simpa using hk) (h e hm)
 
+/-- the sessions after a callback: the arriving session lost the entry and its expired entries — or (OAuth 1 apps,
+    unknown request token) nothing changed and the session held no entry for the key -/
+theorem callback_sessions (w : World) (hc : w.cacheMode = false) (i : Nat) (n : String) (st : Option String) :
+    (step w (.callback i n st)).1.sessions
+        = (setSession w i (purge w.now ((w.sessions i).filter fun e => e.key != keyOf n st))).sessions
+    ∨ ((w.sessions i).find? (fun e => e.key == keyOf n st) = none ∧ (step w (.callback i n st)).1.sessions = w.sessions) := by
+  simp only [step, hc, Bool.false_eq_true, if_false]
+  cases hf : (w.sessions i).find? (fun e => e.key == keyOf n st) with
+  | some e => exact Or.inl rfl
+  | none =>
+    by_cases ho : w.oauth1 = true
+    · exact Or.inr ⟨rfl, by simp [ho]⟩
+    · exact Or.inl (by simp [ho])
+
+theorem find_none_key {k : String} : ∀ (l : List Entry), l.find? (fun e => e.key == k) = none → ∀ e ∈ l, e.key ≠ k := by
+  intro l h e he
+  have := List.find?_eq_none.mp h e he
+  simpa using this
+
 /-- the entry is consumed by the callback, whatever its outcome -/
 theorem callback_consumes_partial (w : World) (hc : w.cacheMode = false) (i : Nat) (n : String) (st : Option String) :
     ∀ e ∈ (step w (.callback i n st)).1.sessions i, e.key ≠ keyOf n st := by
   intro e he
-  have : e ∈ purge w.now ((w.sessions i).filter fun e => e.key != keyOf n st) := by
-    simp only [step, hc, Bool.false_eq_true, if_false] at he
-    split at he <;> simpa [setSession] using he
-  have := (List.mem_filter.mp (List.mem_filter.mp this).1).2
-  simpa using this
+  rcases callback_sessions w hc i n st with h | ⟨hf, h⟩
+  · rw [h] at he
+    have : e ∈ purge w.now ((w.sessions i).filter fun e => e.key != keyOf n st) := by simpa [setSession] using he
+    have := (List.mem_filter.mp (List.mem_filter.mp this).1).2
+    simpa using this
+  · rw [h] at he
+    exact find_none_key _ hf e he
 
 /-- operations in one session never touch another session's entries -/
 theorem other_sessions_untouched_partial (w : World) (hc : w.cacheMode = false) (op : Op) (j : Nat)
@@ -70,8 +91,9 @@ theorem other_sessions_untouched_partial (w : World) (hc : w.cacheMode = false) 
     rw [if_neg (fun h : j = i => hj h.symm)]
   | callback i n st =>
     simp only at hj
-    simp only [step, hc, Bool.false_eq_true, if_false]
-    split <;> simp only [setSession] <;> rw [if_neg (fun h : j = i => hj h.symm)]
+    rcases callback_sessions w hc i n st with h | ⟨_, h⟩
+    · rw [h]; simp only [setSession]; rw [if_neg (fun h : j = i => hj h.symm)]
+    · rw [h]
   | advance dt => rfl
 
 theorem cacheMode_const (w : World) (op : Op) : (step w op).1.cacheMode = w.cacheMode := by
@@ -81,7 +103,9 @@ theorem cacheMode_const (w : World) (op : Op) : (step w op).1.cacheMode = w.cach
     simp only [step]
     split
     · split <;> rfl
-    · split <;> rfl
+    · split
+      · rfl
+      · split <;> rfl
   | advance dt => rfl
 
 /-! ### every history -/
@@ -112,16 +136,17 @@ theorem step_preserves_owned (hist : List Op) (w : World) (hc : w.cacheMode = fa
     · simp only [hji, if_false] at he
       exact weaken j e he
   | callback i n st =>
-    simp only [step, hc, Bool.false_eq_true, if_false] at he
-    have he' : e ∈ (setSession w i (purge w.now ((w.sessions i).filter fun e => e.key != keyOf n st))).sessions j := by
-      split at he <;> exact he
-    simp only [setSession] at he'
-    by_cases hji : j = i
-    · subst hji
-      simp only [if_true] at he'
-      exact weaken j e (List.mem_filter.mp (List.mem_filter.mp he').1).1
-    · simp only [hji, if_false] at he'
-      exact weaken j e he'
+    rcases callback_sessions w hc i n st with h' | ⟨_, h'⟩
+    · rw [h'] at he
+      simp only [setSession] at he
+      by_cases hji : j = i
+      · subst hji
+        simp only [if_true] at he
+        exact weaken j e (List.mem_filter.mp (List.mem_filter.mp he).1).1
+      · simp only [hji, if_false] at he
+        exact weaken j e he
+    · rw [h'] at he
+      exact weaken j e he
   | advance dt => exact weaken j e he
 
 theorem run_append (w : World) (ops : List Op) (op : Op) : run w (ops ++ [op]) = (step (run w ops) op).1 := by
@@ -141,20 +166,20 @@ theorem run_preserves_owned (ops : List Op) : ∀ (hist : List Op) (w : World), 
     have := ih (hist ++ [op]) (step w op).1 ((cacheMode_const w op).trans hc) (step_preserves_owned hist w hc op h)
     simpa [run, List.append_assoc] using this
 
-theorem owned_reachable (starlette : Bool) (now : Int) (ops : List Op) :
-    Owned ops (run (init false starlette now) ops) := by
-  have := run_preserves_owned ops [] (init false starlette now) rfl (by intro i e he; simp [init] at he)
+theorem owned_reachable (starlette oauth1 : Bool) (now : Int) (ops : List Op) :
+    Owned ops (run (init false starlette now oauth1) ops) := by
+  have := run_preserves_owned ops [] (init false starlette now oauth1) rfl (by intro i e he; simp [init] at he)
   simpa using this
 
 /-- **Session storage, every history**: whenever a callback goes on to the token endpoint, an earlier
     authorization redirect *in the same user session* created exactly that state key, and the
     code_verifier / nonce / redirect_uri sent and used are the ones that redirect saved. -/
-theorem callback_proceeds_implies_begun_in_same_session_partial (starlette : Bool) (now : Int) (ops : List Op)
+theorem callback_proceeds_implies_begun_in_same_session_partial (starlette oauth1 : Bool) (now : Int) (ops : List Op)
     (i : Nat) (n : String) (st : Option String) (d : Data)
-    (h : (step (run (init false starlette now) ops) (.callback i n st)).2 = .proceeds d) :
+    (h : (step (run (init false starlette now oauth1) ops) (.callback i n st)).2 = .proceeds d) :
     ∃ n' s', Op.begin i n' s' d ∈ ops ∧ keyOf n' (some s') = keyOf n st := by
   obtain ⟨e, hm, hk, hd⟩ := callback_proceeds_implies_own_entry_partial _ (by rw [run_cacheMode]; rfl) i n st d h
-  obtain ⟨n', s', hb, hk'⟩ := owned_reachable starlette now ops i e hm
+  obtain ⟨n', s', hb, hk'⟩ := owned_reachable starlette oauth1 now ops i e hm
   exact ⟨n', s', hd ▸ hb, hk' ▸ hk⟩
 
 /-- a key absent from a session stays absent until that session begins a flow with that key -/
@@ -183,16 +208,17 @@ theorem absent_stays_absent_partial (k : String) (i : Nat) (ops : List Op)
       · simp only [hji, if_false] at he
         exact h e he
     | callback j n st =>
-      simp only [step, hc, Bool.false_eq_true, if_false] at he
-      have he' : e ∈ (setSession w j (purge w.now ((w.sessions j).filter fun e => e.key != keyOf n st))).sessions i := by
-        split at he <;> exact he
-      simp only [setSession] at he'
-      by_cases hji : i = j
-      · subst hji
-        simp only [if_true] at he'
-        exact h e (List.mem_filter.mp (List.mem_filter.mp he').1).1
-      · simp only [hji, if_false] at he'
-        exact h e he'
+      rcases callback_sessions w hc j n st with h' | ⟨_, h'⟩
+      · rw [h'] at he
+        simp only [setSession] at he
+        by_cases hji : i = j
+        · subst hji
+          simp only [if_true] at he
+          exact h e (List.mem_filter.mp (List.mem_filter.mp he).1).1
+        · simp only [hji, if_false] at he
+          exact h e he
+      · rw [h'] at he
+        exact h e he
     | advance dt => exact h e he
 
 /-- **Single use, every history**: after a callback for a state, any later callback in that session for
